@@ -222,6 +222,7 @@ func TestHandler(t *testing.T) {
 			labels["derived-handler"] = true
 		}
 
+		ownCollide := rapid.IntRange(0, 3).Draw(t, "loggerHasOwnAttributesUnderRecordKeys") == 0
 		nrec := rapid.SampledFrom([]int{1, 1, 2, 3}).Draw(t, "records")
 		for rec := 0; rec < nrec; rec++ {
 			log.Reset()
@@ -286,6 +287,17 @@ func TestHandler(t *testing.T) {
 					}
 				}
 				recAttrs, recExp = append(recAttrs, a), append(recExp, e)
+			}
+			if ownCollide {
+				// the underlying logger has attributes of its own under keys the record carries too: whatever the
+				// adapter does with a logger's own attributes, the record's attributes are emitted with THEIR values
+				tree := expectedTree(chain, recExp)
+				for i, a := range tree {
+					if i < 2 && a.Key != "" {
+						lg.Set(a.Key, "the-logger's-own-value")
+						labels["logger-own-attribute-under-a-record-key"] = true
+					}
+				}
 			}
 			ts := vlib.GenTime().Draw(t, "ts")
 			direct := rapid.Bool().Draw(t, "directHandle")
